@@ -7,9 +7,12 @@ package harness
 import (
 	"context"
 	"fmt"
+	"math/rand"
 	"strings"
 
 	abci "github.com/cometbft/cometbft/abci/types"
+	cmtproto "github.com/cometbft/cometbft/proto/tendermint/types"
+	simtestutil "github.com/cosmos/cosmos-sdk/testutil/sims"
 	sdk "github.com/cosmos/cosmos-sdk/types"
 
 	mttransfertypes "github.com/bianjieai/tibc-go/modules/tibc/apps/mt_transfer/types"
@@ -161,7 +164,7 @@ func (w *World) Tx(c *tibctesting.TestChain, j int, msg sdk.Msg) *abci.ExecTxRes
 	_ = acc.SenderAccount.SetSequence(real.GetSequence())
 	saveAcc, saveKey := c.SenderAccount, c.SenderPrivKey
 	c.SenderAccount, c.SenderPrivKey = acc.SenderAccount, acc.SenderPrivKey
-	res, err := c.SendMsgs(msg)
+	res, err := w.sendMsgs(c, msg)
 	c.SenderAccount, c.SenderPrivKey = saveAcc, saveKey
 	if err != nil {
 		// SendMsgs does not advance time on failure; keep block times strictly increasing
@@ -400,3 +403,46 @@ func (w *World) SetRules(c *tibctesting.TestChain, rules []string) error {
 }
 
 var _ = ibctmtypes.Header{}
+
+// sendMsgs is TestChain.SendMsgs, except that the block goes through SimApp.FinalizeBlock (so the
+// verif-tagged ABCI recorder sees it) and the transaction is signed without wall-clock randomness.
+func (w *World) sendMsgs(c *tibctesting.TestChain, msgs ...sdk.Msg) (*abci.ExecTxResult, error) {
+	c.Coordinator.UpdateTimeForChain(c)
+	defer func() {
+		_ = c.SenderAccount.SetSequence(c.SenderAccount.GetSequence() + 1)
+	}()
+	w.txCount++
+	tx, err := simtestutil.GenSignedMockTx(rand.New(rand.NewSource(int64(w.txCount))), c.TxConfig, msgs,
+		sdk.Coins{sdk.NewInt64Coin(sdk.DefaultBondDenom, 0)}, simtestutil.DefaultGenTxGas, c.ChainID,
+		[]uint64{c.SenderAccount.GetAccountNumber()}, []uint64{c.SenderAccount.GetSequence()}, c.SenderPrivKey)
+	if err != nil {
+		return nil, err
+	}
+	bz, err := c.TxConfig.TxEncoder()(tx)
+	if err != nil {
+		return nil, err
+	}
+	resp, err := c.App.FinalizeBlock(&abci.RequestFinalizeBlock{Height: c.App.LastBlockHeight() + 1, Time: c.ProposedHeader.GetTime(),
+		NextValidatorsHash: c.NextVals.Hash(), Txs: [][]byte{bz}})
+	if err != nil {
+		return nil, err
+	}
+	// TestChain.commitBlock
+	if _, err := c.App.Commit(); err != nil {
+		return nil, err
+	}
+	c.LastHeader = c.CurrentTMClientHeader()
+	c.Vals = c.NextVals
+	c.NextVals = tibctesting.ApplyValSetChanges(c.T, c.Vals, resp.ValidatorUpdates)
+	c.ProposedHeader = cmtproto.Header{ChainID: c.ChainID, Height: c.App.LastBlockHeight() + 1, AppHash: c.App.LastCommitID().Hash,
+		Time: c.ProposedHeader.Time, ValidatorsHash: c.Vals.Hash(), NextValidatorsHash: c.NextVals.Hash(), ProposerAddress: c.ProposedHeader.ProposerAddress}
+	if len(resp.TxResults) != 1 {
+		return nil, fmt.Errorf("expected one tx result, got %d", len(resp.TxResults))
+	}
+	r := resp.TxResults[0]
+	if r.Code != 0 {
+		return r, fmt.Errorf("%s/%d: %q", r.Codespace, r.Code, r.Log)
+	}
+	c.Coordinator.IncrementTime()
+	return r, nil
+}
